@@ -508,3 +508,34 @@ func sameAddrChain(a, b ssa.Value) bool {
 	}
 	return false
 }
+
+// hostLoop is a loop met on the paths of a function analysed with its helpers in place: the loop
+// and the function (the analysed one or a helper) whose body holds it.
+type hostLoop struct {
+	Fn *ssa.Function
+	L  *Loop
+}
+
+// loopsWithHelpers lists the loops on the paths of fn, those of inlined helpers included, in the
+// order they are first met.
+func loopsWithHelpers(s *Summ, fn *ssa.Function) []hostLoop {
+	paths, _ := s.Function(fn)
+	seen := map[*Loop]bool{}
+	var out []hostLoop
+	for _, ps := range paths {
+		for _, e := range ps.Events {
+			if e.Kind == "loop" && e.Loop != nil && !seen[e.Loop] {
+				seen[e.Loop] = true
+				out = append(out, hostLoop{e.InFn, e.Loop})
+			}
+		}
+	}
+	return out
+}
+
+// withPrivateHelpers makes s read the package-private helpers of owner where they are called,
+// the ones that hold loops too.
+func withPrivateHelpers(s *Summ, owner *ssa.Function) *Summ {
+	s.HelperInline = func(f *ssa.Function) bool { return privateHelper(owner, f) }
+	return s
+}
